@@ -14,6 +14,7 @@ import (
 	"time"
 
 	"github.com/google/gopacket"
+	"github.com/google/gopacket/afpacket"
 	"github.com/v-byte-cpu/sx/pkg/packet"
 	"sxverif/harness/internal/hx"
 )
@@ -62,6 +63,8 @@ func recvErr(sym byte) error {
 		return errors.New("read: use of closed file")
 	case 'w':
 		return fmt.Errorf("read: %w", io.EOF)
+	case 'p':
+		return afpacket.ErrPoll // what the AF_PACKET reader returns when poll(2) fails (interface flap)
 	case 'x':
 		return errors.New("boom")
 	}
@@ -178,7 +181,7 @@ loop:
 	return fmt.Sprintf("p=%s;r=%s;c=%d;closed=%d", strings.Join(procs, ","), strings.Join(reported, ","), calls, closed)
 }
 
-const recvAlphabet = "FPartosnedugcbfwx"
+const recvAlphabet = "FPartosnedugcbfwxp"
 
 func recvComponent(r *hx.Run) {
 	r.Rule = "case = (sequence over the 17-symbol outcome vocabulary, cancellation position or none); exhaustive up to a length bound, cancellation at every position for a sample, random long sequences incl. >100 reported errors; non-trivial class = (set of outcome classes present {frame, procErr, transient, unknown, broken}, cancelled?, ends-by)"
@@ -222,7 +225,7 @@ func recvComponent(r *hx.Run) {
 		}
 	}
 	// long sequences without broken-socket symbols, biased to frames; some with > 100 reported errors
-	live := "FFFFPPatosrnwx"
+	live := "FFFFPPatosrnwxp"
 	for i := 0; i < nLong; i++ {
 		n := 20 + r.Rng.Intn(200)
 		var sb strings.Builder
